@@ -2727,3 +2727,59 @@ impl ChangeMarker for AnnotationStore {
         &self.changed
     }
 }
+
+/// Verification hooks (compiled only with `--cfg stam_verif`): read-only dumps of the reverse indices and id maps.
+#[cfg(stam_verif)]
+mod verif_hooks {
+    use super::*;
+    impl AnnotationStore {
+        /// every reverse index as (map name, a, b (usize::MAX when the map has two levels only), [annotation handles in storage order])
+        pub fn verif_dump_relations(&self) -> Vec<(&'static str, usize, usize, Vec<usize>)> {
+            let mut out = Vec::new();
+            for (a, b, v) in self.dataset_data_annotation_map.verif_dump() {
+                out.push(("dataset_data_annotation_map", a, b, v));
+            }
+            for (a, b, v) in self.textrelationmap.verif_dump() {
+                out.push(("textrelationmap", a, b, v));
+            }
+            for (a, v) in self.resource_annotation_metamap.verif_dump() {
+                out.push(("resource_annotation_metamap", a, usize::MAX, v));
+            }
+            for (a, v) in self.dataset_annotation_metamap.verif_dump() {
+                out.push(("dataset_annotation_metamap", a, usize::MAX, v));
+            }
+            for (a, v) in self.annotation_annotation_map.verif_dump() {
+                out.push(("annotation_annotation_map", a, usize::MAX, v));
+            }
+            for (a, b, v) in self.key_annotation_metamap.verif_dump() {
+                out.push(("key_annotation_metamap", a, b, v));
+            }
+            for (a, b, v) in self.data_annotation_metamap.verif_dump() {
+                out.push(("data_annotation_metamap", a, b, v));
+            }
+            out
+        }
+        /// (kind, id, handle) for the three top-level id maps
+        pub fn verif_dump_idmaps(&self) -> Vec<(&'static str, String, usize)> {
+            let mut out = Vec::new();
+            for (id, h) in self.annotation_idmap.verif_dump() {
+                out.push(("annotation", id, h));
+            }
+            for (id, h) in self.resource_idmap.verif_dump() {
+                out.push(("resource", id, h));
+            }
+            for (id, h) in self.dataset_idmap.verif_dump() {
+                out.push(("dataset", id, h));
+            }
+            out
+        }
+        /// which slots of the three top-level stores are occupied
+        pub fn verif_dump_slots(&self) -> (Vec<bool>, Vec<bool>, Vec<bool>) {
+            (
+                self.annotations.iter().map(|x| x.is_some()).collect(),
+                self.resources.iter().map(|x| x.is_some()).collect(),
+                self.annotationsets.iter().map(|x| x.is_some()).collect(),
+            )
+        }
+    }
+}
